@@ -7,7 +7,7 @@ def run(repo, res):
     from . import sampleorder
 
     res.rule("R27.4", "sample nodes are identified by ts.samples() / the NODE_IS_SAMPLE bit, never by position in the node table: num_samples is used as a count only (no slice bound, no id range, no ordering comparison with a node id)")
-    sampleorder.run(repo, res, "R27.4")
+    sampleorder.run(repo, res, "R27.4", floor=1, scope=["core.EstimationMethod.__init__", "util.constrain_ages", "util._constrain_ages"])
     res.rule("R27.1", "inputs that already satisfy every constraint leave through the early exit before any store; the kernel works on a copy; the least-squares phase runs max_iterations times and is off by default for contemporaneous samples; no other phase writes times")
     res.rule("R27.2", "(= R03.2) the forced pass raises a parent exactly to the violated bound t[c] (+) eps, under the test of that very bound")
     res.rule("R27.3", "(= R03.1) the least-squares phase never moves a fixed node")
@@ -16,7 +16,7 @@ def run(repo, res):
     c03.r031(repo, res, "R27.3")
 
 
-VARIANTS = [dict(v, rule="R27.4") for v in __import__("sa.rules.sampleorder", fromlist=["VARIANTS"]).VARIANTS] + [
+VARIANTS = [dict(v, rule="R27.4") for v in __import__("sa.rules.sampleorder", fromlist=["VARIANTS"]).VARIANTS if v["mod"] == "core"] + [
     dict(name="early-exit-after-store", mod="util", expect="fire", rule="R27.1", old="    for _ in range(max_iterations):  # method of alternating projections\n        if np.all(nodes_time[edges_parent] - nodes_time[edges_child] > epsilon):\n            return nodes_time\n", new="    for _ in range(max_iterations):  # method of alternating projections\n        nodes_time[edges_parent[0]] += 0.0\n        if np.all(nodes_time[edges_parent] - nodes_time[edges_child] > epsilon):\n            return nodes_time\n"),
     dict(name="no-copy", mod="util", expect="fire", rule="R27.1", old="    nodes_time = nodes_time.copy()\n    edges_cavity", new="    edges_cavity"),
     dict(name="always-one-iteration", mod="util", expect="fire", rule="R27.1", old="    for _ in range(max_iterations):  # method of alternating projections", new="    for _ in range(max_iterations + 1):  # method of alternating projections"),
